@@ -748,6 +748,9 @@ def ob_fill(P, K, hooks=None, mode="live", rollback=False):
         cx.emit(["C02"], "ensures:gate", p, s, lambda s2: z3.Implies(z3.Not(w.ispos()), frame_goal(s2, pre)))
         if r.exc is not None:
             if rollback:
+                child_failed = any(any(isinstance(x, str) and x == "child-fill-raised" for x in e[:2]) for e in s.events if e)
+                if K in ("Fraction", "Stack") and child_failed:
+                    continue  # a failing child of a fan-out: siblings filled before it are outside the guarantee
                 cx.emit(["C12"], "raises:rollback", p, s, lambda s2: frame_goal(s2, pre))
             else:
                 # only a failing user function / wrong return type / failing child may make fill raise
